@@ -9,6 +9,10 @@ import json, os, re
 import argsel
 
 LINTS = ('unused_variables', 'unused_mut', 'unused_assignments', 'unused_must_use')
+# files inside a property's modules that have nothing to do with it (confirmed by reading): system snapshot / process
+# dumps, the version and migration bookkeeping of system.info, generic utilities
+EXCLUDE = ('server/src/streaming/systems/snapshot', 'server/src/streaming/systems/info.rs', 'server/src/streaming/utils',
+           'server/src/streaming/systems/storage.rs')
 
 
 def _paths(prop):
@@ -37,6 +41,8 @@ def check(ctx, rep, prop):
         if x.get('code') not in LINTS or not x.get('file'):
             continue
         f = x['file']
+        if f.startswith(EXCLUDE) or (f.startswith('server/src/streaming/diagnostics') and prop != 'C16'):
+            continue
         if not any(f == q + '.rs' or f.startswith(q + '/') or f.startswith(q) and q.endswith('src') for q in paths):
             continue
         rep.ob(rid, f, '%s: %s' % (x['code'], x['message'][:120]), False, '%s:%s' % (f, x['line']),
